@@ -21,6 +21,7 @@
 -/
 import Driver.Util
 import Saltpack.Model.SenderStream
+import Saltpack.Model.Armored
 
 open Saltpack
 
@@ -144,22 +145,22 @@ def handle (toks : List String) : Option String :=
   | ["st.sender", "enc.a", ma, sender, recips, eph, src, brand, sink, ops] =>
     match ma.toInt?, mkSender sender, mkRecips recips, mkEph eph, mkSource src, ofHex brand, parseOps ops with
     | some ma, some sender, some rs, some eph, some src, some brand, some ops =>
-      some (runPacketA mtEncryption brand (encryptSetupRand RealPrims blockSize codecPieces ⟨ma, 0⟩ sender rs eph src) (parseSink sink) ops)
+      some (runPacketA Encrypt.armorType brand (encryptSetupRand RealPrims blockSize codecPieces ⟨ma, 0⟩ sender rs eph src) (parseSink sink) ops)
     | _, _, _, _, _, _, _ => some bad
   | ["st.sender", "sig.a", ma, signer, src, brand, sink, ops] =>
     match ma.toInt?, ofHex signer, mkSource src, ofHex brand, parseOps ops with
     | some ma, some signer, some src, some brand, some ops =>
-      some (runPacketA mtAttached brand (signSetupRand RealPrims sigBlockSize codecPieces ⟨ma, 0⟩ signer src) (parseSink sink) ops)
+      some (runPacketA Sign.attachedArmorType brand (signSetupRand RealPrims sigBlockSize codecPieces ⟨ma, 0⟩ signer src) (parseSink sink) ops)
     | _, _, _, _, _ => some bad
   | ["st.sender", "sc.a", sender, boxes, syms, eph, src, brand, sink, ops] =>
     match mkSender sender, mkSRecips boxes, mkSRecips syms, mkEph eph, mkSource src, ofHex brand, parseOps ops with
     | some sender, some boxes, some syms, some eph, some src, some brand, some ops =>
-      some (runPacketA mtEncryption brand (signcryptSetupRand RealPrims blockSize codecPieces sender boxes syms eph src) (parseSink sink) ops)
+      some (runPacketA Signcrypt.armorType brand (signcryptSetupRand RealPrims blockSize codecPieces sender boxes syms eph src) (parseSink sink) ops)
     | _, _, _, _, _, _, _ => some bad
   | ["st.sender", "det.a", ma, signer, src, brand, sink, ops] =>
     match ma.toInt?, ofHex signer, mkSource src, ofHex brand, parseOps ops with
     | some ma, some signer, some src, some brand, some ops =>
-      some (runDetachedA mtDetached brand (detachedSetupRand RealPrims ⟨ma, 0⟩ signer src) (parseSink sink) ops)
+      some (runDetachedA Sign.detachedArmorType brand (detachedSetupRand RealPrims ⟨ma, 0⟩ signer src) (parseSink sink) ops)
     | _, _, _, _, _ => some bad
   | ["st.sender", "enc", ma, sender, recips, eph, src, sink, ops] =>
     match ma.toInt?, mkSender sender, mkRecips recips, mkEph eph, mkSource src, parseOps ops with
